@@ -452,6 +452,11 @@ func (c *Ctx) objectSchema(depth int, withProps bool) *Schema {
 	s.Properties = map[string]*Schema{}
 	for i := 0; i < n; i++ {
 		name := c.SafeName("p", "prop")
+		// (a property may be named like a specification extension: it is a property all the same)
+		if rapid.IntRange(0, 9).Draw(t, "prop_named_like_extension") == 0 {
+			name = "x-" + name
+			c.Tag("prop:named-like-extension")
+		}
 		s.Properties[name] = c.Schema(depth-1, "property")
 		if rapid.Bool().Draw(t, "required") {
 			s.Required = append(s.Required, name)
